@@ -2,7 +2,7 @@
    Statements only; proofs are in Proofs/C01.v and Proofs/C01_delim.v. *)
 From Coq Require Import ZArith List Bool Arith.
 From Coq Require Import String.
-From BNP Require Import Base.Prims Model.C01 Proofs.C01 Proofs.C01_delim.
+From BNP Require Import Base.Prims Model.C01 Proofs.C01 Proofs.C01_delim Proofs.C01_lines.
 Import ListNotations.
 
 (* T1 (every format, both reader modes, the repaired and the pinned code): whatever the chunk size,
@@ -37,6 +37,32 @@ Theorem C01_delim_records_exact :
     List.concat (map lines chunks) = lines (norm_text file).
 Proof. exact delim_records_exact. Qed.
 Print Assumptions C01_delim_records_exact.
+
+(* T4 (n-lines-per-record formats: FASTQ n = 4, two-line FASTA n = 2; repaired code): for every file whose
+   newline-terminated text consists of whole records (its number of lines is a multiple of n), every chunk size
+   >= 1 and both reader modes, nothing is dropped, the concatenated chunks are the terminated file, and every chunk
+   ends at a line break and holds a whole number of records — so the records of the chunks, in order, are exactly
+   the records of the file (T3's line additivity applies verbatim). *)
+Theorem C01_oneline_chunks_exact :
+  forall n hdr plus m k file chunks dropped app lines,
+    (1 <= n)%nat -> (1 <= k)%nat -> whole n (norm_text file) ->
+    read_chunks true (OneLine n hdr plus) m k file = Done chunks dropped app lines ->
+    dropped = [] /\ List.concat chunks = norm_text file
+    /\ Forall (whole n) chunks /\ Forall (fun c => ends_nl c = true) chunks.
+Proof. exact (fun n hdr plus m k file chunks dropped app lines Hn => oneline_chunks_exact n hdr plus Hn m k file chunks dropped app lines). Qed.
+Print Assumptions C01_oneline_chunks_exact.
+
+Theorem C01_oneline_records_exact :
+  forall n hdr plus m k file chunks dropped app lines_read,
+    (1 <= n)%nat -> (1 <= k)%nat -> whole n (norm_text file) ->
+    read_chunks true (OneLine n hdr plus) m k file = Done chunks dropped app lines_read ->
+    List.concat (map lines chunks) = lines (norm_text file).
+Proof.
+  intros n hdr plus m k file chunks dropped app lr Hn Hk Hw Hrun.
+  destruct (oneline_chunks_exact n hdr plus Hn m k file chunks dropped app lr Hk Hw Hrun) as (_ & Hc & _ & HE).
+  rewrite <- Hc. symmetry. apply lines_concat. exact HE.
+Qed.
+Print Assumptions C01_oneline_records_exact.
 
 (* The code at the pinned commit violated T2: a raw read that ends exactly at end of file left the
    unterminated tail undelivered (history; repaired in /repo by the fix: commit). *)
